@@ -55,6 +55,17 @@ def strip_trace(out):
     return TRACE_RE.sub("", out)
 
 
+# What the compiler driver itself prints on standard output about a run it hosts: its report of a crashed interpretation
+# (the executable's counterpart is printed by the shell, not on stdout) and internal warnings of the compilation.
+FAULT_RE = re.compile(r"(?:Warning: (?:hard|soft) assertion failed, file [^\n]* line \d+: [^\n]*\n)?"
+                      r"Program fault \([^)\n]*\)\.#\d+ \(Error\) Program fault \([^)\n]*\)\.\n")
+IWARN_RE = re.compile(r"^Internal Warning: [^\n]*\n", re.M)
+
+
+def strip_host(out):
+    return IWARN_RE.sub("", FAULT_RE.sub("", strip_trace(out)))
+
+
 # ------------------------------------------------------------------ routes
 
 def lib_flags(lib):
@@ -138,16 +149,24 @@ def compare(res, oracle=None):
         return "incomparable", "does not compile"
     bad = []
     raw_equal = True
+    host_only = False
     for a, b in itertools.combinations(rs, 2):
         if st[a] != st[b]:
             bad.append("%s ends %s (rc=%s), %s ends %s (rc=%s)" % (a, st[a], res[a]["rc"], b, st[b], res[b]["rc"]))
         if res[a]["out"] != res[b]["out"]:
             raw_equal = False
             if strip_trace(res[a]["out"]) != strip_trace(res[b]["out"]):
-                bad.append("stdout of %s and %s differ" % (a, b))
+                sa, sb = strip_host(res[a]["out"]), strip_host(res[b]["out"])
+                killed = [(x, y) for x, y, r in ((sa, sb, a), (sb, sa, b)) if res[r]["rc"] < 0 and y.startswith(x)]
+                if sa == sb:
+                    host_only = True          # only the driver's own crash report / internal warnings differ
+                elif st[a] == st[b] == "fail" and killed:
+                    host_only = True          # a process killed by a signal loses what stdio still buffered
+                else:
+                    bad.append("stdout of %s and %s differ" % (a, b))
     if oracle is not None:
         for r in rs:
-            o = strip_trace(res[r]["out"])
+            o = strip_host(res[r]["out"])
             if "out" in oracle and o != oracle["out"]:
                 bad.append("%s prints other text than the oracle" % r)
             if "prefix" in oracle and not o.startswith(oracle["prefix"]):
@@ -156,6 +175,8 @@ def compare(res, oracle=None):
                 bad.append("%s ends %s, oracle says %s" % (r, st[r], oracle["status"]))
     if bad:
         return "disagree", "; ".join(bad[:4])
+    if host_only:
+        return "host-report-only", ""
     return ("agree" if raw_equal else "trace-only"), ""
 
 
@@ -526,8 +547,8 @@ def run(rep, tier):
     stats["model_predictions_checked"] = n_model
 
     # ---- 2. the programs ----------------------------------------------------------------------------
-    n_mini = 18 if quick else 400
-    n_end = 20 if quick else 300
+    n_mini = 18 if quick else 200
+    n_end = 20 if quick else 120
     n_corp = 10 if quick else None
     sizes = [6, 10, 14, 20] if quick else [6, 10, 14, 20, 30, 45]
     mini.build(rebuild_coq=False)
@@ -540,11 +561,11 @@ def run(rep, tier):
     for p in ends:
         feat.update(p["features"])
     from props import c12                      # integer/list/record/closure programs with a Python oracle (values inside 32 bits)
-    n_hand = 8 if quick else 150
+    n_hand = 8 if quick else 80
     hands = []
     for i in range(n_hand):
         hp = c12.family_program(rng, rng.randrange(4, 16 if quick else 30))
-        hp.update(kind="hand", ctx="", halt=None, levels=[q for q in LEVELS if not ("record-alias" in hp["features"] and q > 3)])
+        hp.update(kind="hand", ctx="", halt=None, levels=[q for q in LEVELS if not ("record-alias" in hp["features"] and q >= 3)])
         hands.append(hp)
         feat.update(hp["features"])
     corp = corpus_programs()
@@ -611,7 +632,7 @@ def run(rep, tier):
             report("corpus program %s at -Q%d: %s" % (p["corpus"], q, det),
                    {"how_to_replay": "./check C03 --replay <this file>", "corpus": p["corpus"], "lib": lib, "level": q,
                     "observed": brief(res)},
-                   key=signature_key(res) or "corpus:%s:Q%d:%s" % (p["corpus"], q, _route_sig(res)),
+                   key=signature_key(res) or "corpus:%s:%s" % (p["corpus"], _route_sig(res)),
                    group="corpus:%s:%s" % (p["corpus"], _route_sig(res)))
 
     # the interpreter's stack trace on stdout: one keyed report, with the smallest witness
@@ -683,10 +704,15 @@ def run(rep, tier):
         "and the generated C are built from the current tree on every run",
         "a corpus program that no route can build at a level, or that exceeds the time limit on some route, is counted as "
         "incomparable (number in input_distribution.verdicts), never as agreeing",
+        "what the compiler DRIVER prints on stdout about a run it hosts - `Program fault (..).#1 (Error) Program fault (..).' (with the "
+        "hard-assertion line before it) when the interpreted program crashes, and `Internal Warning: ..' lines of the compilation - is "
+        "not program output: pairs that differ only there are counted as `host-report-only' (the status classes must still be equal); "
+        "likewise when both routes fail, the executable was killed by a signal and its stdout is a prefix of the interpreter's "
+        "(stdio buffers are lost with the process)",
         "stack-trace lines of the interpreter (fintWhere) are removed before stdout is compared ONLY to tell the keyed finding "
         "`%s' from other disagreements; the raw difference is reported under that key" % KEY_TRACE,
         "hand family (props/c12.py:family_program): integer, boolean, string, list, record, closure programs whose values are tracked "
-        "by the generator; programs that update a record through an alias are not run above -Q3 (keyed finding of C12, an optimiser defect)",
+        "by the generator; programs that update a record through an alias are run below -Q3 only (keyed finding of C12, an optimiser defect)",
         "ending family: the Python oracle encodes the User Guide's try/catch/finally, assert, never, error and union-branch rules "
         "(aldorug/langtry.tex) for 13 kinds of ending x 4 contexts",
         "translator tools/exitclasses_gen.py: statements it does not know become AOpaque and make the theorems fail "
